@@ -860,6 +860,7 @@ func (fa *FuncAnalysis) term0(v ssa.Value) *Term {
 		}
 		if isPure(key, c) {
 			op := "call"
+			key, args = librarySynonym(key, args)
 			return &Term{Op: op, Name: key, Args: args, Instr: x}
 		}
 		args = append(args, &Term{Op: "const", Name: strconv.Itoa(fa.ord[x])})
@@ -972,4 +973,43 @@ func reviewedParamName(p *ssa.Parameter) string {
 		return p.Name()
 	}
 	return base[idx][0]
+}
+
+
+// librarySynonym gives the one spelling under which the rules see library calls that compute the same thing for every
+// value: a.GT(b) is b.LT(a), a.GTE(b) is b.LTE(a), t.After(u) is u.Before(t) (cosmossdk.io/math and time define them
+// by the same comparison with the operands swapped); Coin.IsZero is Amount.IsZero; Time.IsZero is Equal(time.Time{});
+// Int.ToLegacyDec is LegacyNewDecFromInt.
+func librarySynonym(key string, args []*Term) (string, []*Term) {
+	swap := func(k string) (string, []*Term) {
+		if len(args) == 2 {
+			return k, []*Term{args[1], args[0]}
+		}
+		return key, args
+	}
+	switch key {
+	case "math.LegacyDec.GT":
+		return swap("math.LegacyDec.LT")
+	case "math.LegacyDec.GTE":
+		return swap("math.LegacyDec.LTE")
+	case "math.Int.GT":
+		return swap("math.Int.LT")
+	case "math.Int.GTE":
+		return swap("math.Int.LTE")
+	case "time.Time.After":
+		return swap("time.Time.Before")
+	case "sdk.Coin.IsZero":
+		if len(args) == 1 {
+			return "math.Int.IsZero", []*Term{{Op: "field", Name: "Amount", Args: []*Term{args[0]}}}
+		}
+	case "time.Time.IsZero":
+		if len(args) == 1 {
+			return "time.Time.Equal", []*Term{args[0], {Op: "const", Name: "nil"}}
+		}
+	case "math.Int.ToLegacyDec":
+		if len(args) == 1 {
+			return "math.LegacyNewDecFromInt", args
+		}
+	}
+	return key, args
 }
